@@ -78,6 +78,20 @@ namespace smt
 
     SMT_EXPORT bool equates(const lin &l0, const lin &l1) const noexcept;
 
+#ifdef ORATIO_VERIF
+    struct verif_assertion
+    {
+      lit b;          // the controlling literal..
+      bool is_leq;    // x <= v (true) or x >= v (false)..
+      var x;          // the numeric variable..
+      inf_rational v; // the constant..
+    };
+    SMT_EXPORT std::vector<verif_assertion> verif_assertions() const;                                 // every assertion created so far..
+    SMT_EXPORT std::vector<std::pair<var, lin>> verif_rows() const;                                   // the current tableau..
+    const std::vector<std::pair<var, lin>> &verif_defs() const noexcept { return verif_slack_defs; } // slack variable -> defining expression (as given at creation)..
+    inline size_t verif_n_vars() const noexcept { return vals.size(); }
+#endif
+
     SMT_EXPORT bool set_lb(const var &x_i, const inf_rational &val, const lit &p) noexcept { return assert_lower(x_i, val, p); }
     SMT_EXPORT bool set_ub(const var &x_i, const inf_rational &val, const lit &p) noexcept { return assert_upper(x_i, val, p); }
     SMT_EXPORT bool set(const var &x_i, const inf_rational &val, const lit &p) noexcept { return set_lb(x_i, val, p) && set_ub(x_i, val, p); }
@@ -126,6 +140,9 @@ namespace smt
     std::vector<std::unordered_set<row *>> t_watches;      // for each variable 'v', a list of tableau rows watching 'v'..
     std::vector<std::unordered_map<size_t, bound>> layers; // we store the updated bounds..
     std::unordered_map<var, std::set<lra_value_listener *>> listening;
+#ifdef ORATIO_VERIF
+    std::vector<std::pair<var, lin>> verif_slack_defs;
+#endif
 
 #ifdef PARALLELIZE
     struct var_mtx : std::mutex
